@@ -42,28 +42,42 @@ def b_work(args):
     Positions: root (components.schemas.<C>), prop (attribute of a holder model), param (Parameter.schema), media (MediaType.schema)."""
     seed, n_sites, literal = args
     rng = random.Random(seed)
-    from openapi_python_client import schema as oai
-    from openapi_python_client.parser.properties import build_schemas, Schemas
     sg = NG.SGen(rng, literal=literal)
-    comps = dict(copy.deepcopy(NG.BASE))
-    sites, params, medias = [], [], {}
+    plan = []
     for i in range(n_sites):
         s = sg.schema(rng.randint(1, 3))
         r = rng.random()
         if r < 0.22 and "$ref" not in s:
+            plan.append(("root", s, None, False))
+        elif r < 0.32:
+            plan.append(("param", s, None, False))
+        elif r < 0.42:
+            plan.append(("media", s, None, False))
+        else:
+            plan.append(("prop", s, rng.choice(NG.PNAMES), rng.random() < 0.5))
+    return b_eval(plan, literal, seed)
+
+
+def b_eval(plan, literal, seed=None):
+    """plan: [(position, schema, attribute name | None, required)]"""
+    from openapi_python_client import schema as oai
+    from openapi_python_client.parser.properties import build_schemas, Schemas
+    comps = dict(copy.deepcopy(NG.BASE))
+    sites, params, medias = [], [], {}
+    for i, (pos, s, pn, req) in enumerate(plan):
+        if pos == "root":
             cname = f"C{i}"
             comps[cname] = s
             sites.append(("root", cname, None, s))
-        elif r < 0.32:
+        elif pos == "param":
             params.append({"name": f"q{i}", "in": "query", "schema": s})
             sites.append(("param", len(params) - 1, None, s))
-        elif r < 0.42:
+        elif pos == "media":
             medias[f"application/x{i}+json"] = {"schema": s}
             sites.append(("media", f"application/x{i}+json", None, s))
         else:
-            pn = rng.choice(NG.PNAMES)
             hname = f"H{i}"
-            comps[hname] = {"type": "object", "properties": {pn: s}, **({"required": [pn]} if rng.random() < 0.5 else {})}
+            comps[hname] = {"type": "object", "properties": {pn: s}, **({"required": [pn]} if req else {})}
             sites.append(("prop", hname, pn, s))
     paths = {"/x": {"get": {"operationId": "opx", "parameters": params, "responses": {"200": {"description": "d", "content": medias}}}}}
     doc = G.doc_with(comps, paths=paths)
@@ -455,11 +469,18 @@ def static_anchor_check(run):
 def stage_b(run, tier, rng):
     n_docs, n_sites = (14, 40) if tier == "quick" else (160, 50)
     jobs = [(rng.randrange(1 << 30), n_sites, (i % 4 == 3)) for i in range(n_docs)]
-    t0 = time.time()
-    lcases = loader_cases()
     with cf.ProcessPoolExecutor(max_workers=14) as ex:
         results = list(ex.map(b_work, jobs))
-        lres = list(ex.map(loader_work, [c[0] for c in lcases]))
+    return b_check(run, results, rng, tier, extra=True)
+
+
+def b_check(run, results, rng, tier, extra=True):
+    t0 = time.time()
+    lcases, lres = [], []
+    if extra:
+        lcases = loader_cases()
+        with cf.ProcessPoolExecutor(max_workers=14) as ex:
+            lres = list(ex.map(loader_work, [c[0] for c in lcases]))
     hdr = HDR + env_header()
     terms, meta = [], []
     for r in results:
@@ -473,7 +494,7 @@ def stage_b(run, tier, rng):
             terms.append(c["term"]); meta.append(("tree", c))
             run.note_case({"stage": "B2", "schema": c["schema"], "position": c["position"], "name": c["name"], "literal": c["literal"]},
                           nontrivial=c["obs"] != "TErr", kind="B2-" + c["position"] + ("-literal" if c["literal"] else ""))
-    for case, term in bounds_cases(rng, 40 if tier == "quick" else 200):
+    for case, term in (bounds_cases(rng, 40 if tier == "quick" else 200) if extra else []):
         terms.append(term); meta.append(("bound", case))
         run.note_case({"stage": "B1", **case}, nontrivial=True, kind="B1-bounds")
     for (desc, src), lr in zip(lcases, lres):
@@ -567,6 +588,16 @@ def run(run, tier, replay=None):
     rng = run.rng
     static_anchor_check(run)
     if replay:
+        rp = json.load(open(replay))
+        plan0, plan1 = [], []
+        for v in rp["violations"]:
+            if v.get("kind") == "correspondence" and "schema" in v and v.get("position"):
+                pos = v["position"]
+                (plan1 if v.get("literal_enums") else plan0).append((pos, v["schema"], v.get("name") if pos == "prop" else None, True))
+        results = [b_eval(pl, lit) for pl, lit in ((plan0, False), (plan1, True)) if pl]
+        if results:
+            n, bad = b_check(run, results, rng, tier, extra=False)
+            run.corr = {"cases": n, "mismatches": bad, "what": "replayed correspondence cases"}
         stage_c(run, tier, rng, replay=replay)
         return
     nb, bad = stage_b(run, tier, rng)
